@@ -533,7 +533,7 @@ var siAliasKinds = []string{"name", "case", "space"}
 
 // alias concretises an alias reference: a string that is NOT a style id of the behaviour but resembles
 // style k: its display name, its id in the other letter case (ids without letters, or whose other-case
-// form is an id too: a blank in front), its id followed by a blank.
+// form is an id too, have no such alias: the reference is then just another undefined id), its id followed by a blank.
 func (o siOpts) alias(kind string, k int) string {
 	id := o.ids[k-1]
 	switch kind {
@@ -558,7 +558,7 @@ func (o siOpts) alias(kind string, k int) string {
 		if ok {
 			return sw
 		}
-		return " " + id
+		return "VfNoOtherCase/" + id
 	}
 	return id + " "
 }
